@@ -198,6 +198,11 @@ class Program:
             for t in st.targets:
                 for n in self._target_names(t):
                     m.assigns.setdefault(n, []).append(st)
+                if isinstance(t, ast.Attribute) and isinstance(t.value, ast.Name) and t.value.id in m.classes \
+                        and t.value.id not in m.assigns:
+                    # `Class.attr = value` at module level, after the class statement (a collaborator that only exists
+                    # further down): a class attribute like one written in the class body
+                    m.classes[t.value.id].attrs[t.attr] = st.value
         elif isinstance(st, ast.AnnAssign) and isinstance(st.target, ast.Name):
             m.assigns.setdefault(st.target.id, []).append(st)
         elif isinstance(st, (ast.If, ast.Try)):
